@@ -1,6 +1,6 @@
 (* Line-oriented entry point of the executable model: run "cmd sexp" = answer line. *)
 From Coq Require Import String Ascii List Bool Arith.
-From Wrap Require Import Base.Str Base.ListX Syntax.Ast Syntax.Sexp Syntax.Codec Syntax.Print Inst.Model Inst.Proj Pybind.Items Pybind.Gen Pybind.Render.
+From Wrap Require Import Base.Str Base.ListX Syntax.Ast Syntax.Sexp Syntax.Codec Syntax.Print Inst.Model Inst.Proj Pybind.Items Pybind.Gen Pybind.Render Matlab.Ids.
 Import ListNotations.
 Open Scope string_scope.
 
@@ -73,6 +73,59 @@ Definition run_pybind (x : sexp) : string :=
   | _ => "badshape"
   end.
 
+(* pybind_e2e (instq pybq cfg template module_name submodules? decls): parse tree -> instantiate -> generate *)
+Definition run_pybind_e2e (x : sexp) : string :=
+  match x with
+  | SList [Atom iq; Atom qs; cf; Atom tpl; Atom mname; subs; SList ds] =>
+    match d_cfg cf, d_opt (d_list d_str) subs, sequence (map d_decl ds) with
+    | Some c, Some sm, Some m =>
+      match instantiate (d_quirks iq) m with
+      | Ok l => "ok " ++ print (Atom (r_file (d_pquirks qs) c None tpl mname sm l))
+      | Err e => "err " ++ e
+      | Unsupported e => "unsupported " ++ e
+      end
+    | _, _, _ => "baddecode"
+    end
+  | _ => "badshape"
+  end.
+
+Definition d_mcfg (x : sexp) : option mcfg :=
+  match x with
+  | SList [m; i; b] => do m' <- d_str m; do i' <- d_list d_str i; do b' <- d_bool b;
+                       Some {| m_module := m'; m_ignore := i'; m_boost := b' |}
+  | _ => None
+  end.
+Definition e_role (r : role) : sexp :=
+  Atom (match r with
+        | RCollector => "collector" | RUpcast => "upcast" | RCtor => "ctor" | RDtor => "dtor" | RMethod => "method"
+        | RStatic => "static" | RGetter => "getter" | RSetter => "setter" | RSerialize => "serialize"
+        | RDeserialize => "deserialize" | RFunction => "function"
+        end).
+Definition e_what (w : what) : sexp :=
+  match w with
+  | WSlot s => SList [e_role (s_role s); Atom (s_ns s); Atom (s_cls s); Atom (s_member s);
+                      Atom (nat_dec (List.length (s_args s))); Atom (s_file s); Atom (s_mfun s)]
+  | WUpcast cls => SList [Atom "upcast"; Atom cls]
+  end.
+(* mlids (cfg items) -> (call sites) (cases) (routines) *)
+Definition run_mlids (x : sexp) : string :=
+  match x with
+  | SList [cf; SList its] =>
+    match d_mcfg cf, sequence (map d_item its) with
+    | Some c, Some l =>
+      match module_slots c l with
+      | Some slots =>
+        "ok " ++ print (SList [
+          SList (map (fun p => SList [Atom (nat_dec (fst p)); e_what (snd p)]) (call_sites slots));
+          SList (map (fun p => SList [Atom (nat_dec (fst p)); Atom (snd p)]) (cases slots));
+          SList (map (fun p => SList [Atom (fst p); e_what (snd p)]) (routines slots))])
+      | None => "err assertion"
+      end
+    | _, _ => "baddecode"
+    end
+  | _ => "badshape"
+  end.
+
 Definition run (line : string) : string :=
   let '(cmd, rest) := split_cmd line EmptyString in
   match read rest with
@@ -82,6 +135,8 @@ Definition run (line : string) : string :=
     else if String.eqb cmd "instproj" then run_instproj x
     else if String.eqb cmd "proj" then run_proj x
     else if String.eqb cmd "pybind" then run_pybind x
+    else if String.eqb cmd "pybind_e2e" then run_pybind_e2e x
+    else if String.eqb cmd "mlids" then run_mlids x
     else if String.eqb cmd "echo" then print x
     else "badcmd"
   end.
